@@ -55,8 +55,23 @@ impl Strategy {
     }
 }
 
+const NOBODY: usize = usize::MAX;
+/// Real time after which a worker that was handed the processor without reaching any yield
+/// point is taken to be blocked (on a lock that a parked worker holds).
+const STALL_MS: u64 = 250;
+/// After this many stalls in one run the scheduler gives up control: all workers run freely.
+const MAX_STALLS: u64 = 3;
+
 struct State {
     current: usize,
+    /// workers that were handed the processor but turned out to be blocked; they become
+    /// runnable again when they arrive at their next yield point
+    blocked: Vec<bool>,
+    /// incremented whenever any worker arrives at a yield point or finishes
+    progress: u64,
+    stalls: u64,
+    /// the scheduler has given up control for this run (see MAX_STALLS)
+    free_run: bool,
     quantum: u32,
     finished: Vec<bool>,
     rng: Rng,
@@ -98,6 +113,10 @@ impl Sched {
         Sched {
             st: Mutex::new(State {
                 current: first,
+                blocked: vec![false; n],
+                progress: 0,
+                stalls: 0,
+                free_run: false,
                 quantum: 0,
                 finished: vec![false; n],
                 rng,
@@ -119,7 +138,7 @@ impl Sched {
 
     fn pick_next(s: &mut State, n: usize, me: usize, me_runnable: bool) -> Option<usize> {
         let runnable: Vec<usize> = (0..n)
-            .filter(|i| !s.finished[*i] && (*i != me || me_runnable))
+            .filter(|i| !s.finished[*i] && !s.blocked[*i] && (*i != me || me_runnable))
             .collect();
         if runnable.is_empty() {
             return None;
@@ -169,18 +188,67 @@ impl Sched {
         })
     }
 
-    /// Blocks until worker `me` is scheduled for the first time.
-    pub fn start(&self, me: usize) {
-        let mut s = self.st.lock().unwrap();
-        while s.current != me {
-            s = self.cv.wait(s).unwrap();
+    /// Waits until it is `me`'s turn.  If the worker that currently has the processor makes no
+    /// progress for STALL_MS of real time (it never reaches a yield point: it is blocked, most
+    /// likely on a lock that a parked worker — possibly `me` — holds because the library kept a
+    /// lock across a yield point), that worker is marked blocked and `me` takes the processor,
+    /// so that everybody can finish.  A blocked worker queues up again at its next yield point.
+    /// After MAX_STALLS such events the scheduler lets all workers run freely.
+    fn wait_for_turn<'a>(&'a self, mut s: std::sync::MutexGuard<'a, State>, me: usize) -> std::sync::MutexGuard<'a, State> {
+        let mut seen = s.progress;
+        while s.current != me && !s.free_run {
+            if s.current == NOBODY {
+                s.current = me;
+                break;
+            }
+            let (g, t) = self
+                .cv
+                .wait_timeout(s, std::time::Duration::from_millis(STALL_MS))
+                .unwrap();
+            s = g;
+            if s.current == me || s.free_run {
+                break;
+            }
+            if t.timed_out() {
+                if s.progress == seen && s.current != NOBODY && !s.finished[s.current] {
+                    let b = s.current;
+                    s.blocked[b] = true;
+                    s.stalls += 1;
+                    if s.stalls >= MAX_STALLS {
+                        s.free_run = true;
+                    }
+                    s.current = me;
+                    self.cv.notify_all();
+                    break;
+                }
+                seen = s.progress;
+            }
         }
+        s
     }
 
-    /// A yield point reached by the running worker `me`.
+    /// Blocks until worker `me` is scheduled for the first time.
+    pub fn start(&self, me: usize) {
+        let s = self.st.lock().unwrap();
+        let _s = self.wait_for_turn(s, me);
+    }
+
+    /// A yield point reached by worker `me`.
     pub fn yield_point(&self, me: usize, label: &str) {
         let mut s = self.st.lock().unwrap();
-        debug_assert_eq!(s.current, me);
+        s.progress += 1;
+        if s.free_run {
+            return;
+        }
+        if s.current != me {
+            // a worker that had been found blocked has got going again: it queues up
+            s.blocked[me] = false;
+            self.cv.notify_all();
+            s = self.wait_for_turn(s, me);
+            if s.free_run {
+                return;
+            }
+        }
         s.step += 1;
         s.trace_len += 1;
         s.trace_hash = crate::rng::mix(
@@ -203,9 +271,7 @@ impl Sched {
             }
             s.current = next;
             self.cv.notify_all();
-            while s.current != me {
-                s = self.cv.wait(s).unwrap();
-            }
+            let _s = self.wait_for_turn(s, me);
         }
     }
 
@@ -213,15 +279,20 @@ impl Sched {
     pub fn finish(&self, me: usize) {
         let mut s = self.st.lock().unwrap();
         s.finished[me] = true;
-        if let Some(next) = Self::pick_next(&mut s, self.n, me, false) {
-            s.current = next;
-        } else {
-            s.current = usize::MAX;
+        s.blocked[me] = false;
+        s.progress += 1;
+        if s.current == me || s.current == NOBODY {
+            s.current = Self::pick_next(&mut s, self.n, me, false).unwrap_or(NOBODY);
         }
         self.cv.notify_all();
     }
 
     /// (trace hash, yield points, context switches, labels at which a switch happened)
+    /// Number of times a worker was found blocked (see STALL_MS).
+    pub fn stalls(&self) -> u64 {
+        self.st.lock().unwrap().stalls
+    }
+
     pub fn summary(&self) -> (u64, u64, u64, Vec<(String, u64)>, bool) {
         let s = self.st.lock().unwrap();
         (
